@@ -316,8 +316,12 @@ func (a *agg) readFile(path string) {
 			a.strategies[r.Strategy]++
 			if r.ToolErr != "" {
 				a.toolErrs++
-				if len(a.toolErrSamples) < 5 {
-					a.toolErrSamples = append(a.toolErrSamples, fmt.Sprintf("run %d (%s): %s", r.RunIndex, r.Variant, r.ToolErr))
+				if len(a.toolErrSamples) < 2 {
+					te := r.ToolErr
+					if len(te) > 1500 {
+						te = te[:1500] + " ..."
+					}
+					a.toolErrSamples = append(a.toolErrSamples, fmt.Sprintf("run %d (%s): %s", r.RunIndex, r.Variant, te))
 				}
 			}
 			if r.NonTrivial {
@@ -483,6 +487,9 @@ func mainProp(prop string, cfg propCfg, tier string, seed uint64, replay, scratc
 	}
 
 	if replay != "" {
+		if abs, err := filepath.Abs(replay); err == nil {
+			replay = abs
+		}
 		data, err := os.ReadFile(replay)
 		if err != nil {
 			fatal2("%v", err)
